@@ -4,6 +4,7 @@ observable state (`dump`).  Shared by `Drivers/C13.lean` (one node, lifecycle an
 (two nodes with class data and a transport).  Core Lean only.
 -/
 import PrimaiteModel.Model.Registries
+import PrimaiteModel.Model.C13Loader
 namespace Primaite.C13Wire
 open Primaite Primaite.Lifecycle Primaite.Registries
 
@@ -169,6 +170,14 @@ def step (n : Node) (ws : List String) : Node × String :=
       else if h = "udp" then (n, s!"ret {showBool (n.routerAccepts (.udp p) t)}") else (n, "bad-op")
     | _, _ => (n, "bad-op")
   | ["dump"] => (n, dump n)
+  | ["nodedur", up, down] =>   -- the loader's last writes on a node: `config.start_up_duration = …`, `config.shut_down_duration = …`
+    match up.toInt?, down.toInt? with
+    | some up, some down => ({ n with upDur := up, downDur := down }, "ok")
+    | _, _ => (n, "bad-op")
+  | "loadall" :: dspec :: r0 :: rest =>   -- the loader's defaults block (specification), stateless
+    match C13Loader.parseDict dspec, r0.toInt? with
+    | some d, some r => (n, C13Loader.loadAll d r rest)
+    | _, _ => (n, "bad-op")
   | _ => (n, "bad-op")
 
 
